@@ -58,12 +58,10 @@ Proof.
       assert (Hsl : spl <= length (rev pre ++ wa ++ post)) by (rewrite app_length, rev_length; lia).
       assert (Hsn : spl <= n) by (rewrite <- HO'; pose proof (nonempty_length _ HN'); lia).
       unfold expand_value in H.
-      destruct (expand_loop (n - spl) g (rev pre ++ wa ++ post) n m cb fl value spl) as [|v'|v' s'] eqn:EE; [discriminate| |].
+      destruct (expand_loop (n - spl) g (rev pre ++ wa ++ post) n m cb fl value spl) as [|v' s'|v' s'] eqn:EE; [discriminate| |].
       * inversion H; subst ps'. cbn [p_cells p_value].
-        destruct (expand_loop_worse g n m _ cb fl HN' HO' (n - spl) spl value v' ltac:(lia) Hsl HP' ltac:(rewrite HG; exact Hv) EE)
-          as (j' & A & B & C & D & E).
-        pose proof (expand_loop_spec g n m _ cb fl HN' HO' (n - spl) spl value ltac:(lia) Hsl HP' ltac:(rewrite HG; exact Hv)) as HE.
-        rewrite EE in HE. destruct HE as (junk & _ & _ & (_ & HLt & _)).
+        destruct (expand_loop_worse g n m _ cb fl HN' HO' (n - spl) spl value v' s' ltac:(lia) Hsl HP' ltac:(rewrite HG; exact Hv) EE)
+          as (j' & A & B & C & D & E & _ & (_ & HLt & _)).
         split; [exists j'; repeat split; assumption|].
         apply Erase. rewrite !erase_app. f_equal.
         -- symmetry. apply split_singles. apply Forall_forall. intros d Hd. apply In_nth_error in Hd. destruct Hd as (k & Hk).
